@@ -287,7 +287,7 @@ impl Prop for C12 {
     fn runs(&self, t: Tier) -> u64 {
         match t {
             Tier::Quick => 20_000,
-            Tier::Thorough => 1_000_000,
+            Tier::Thorough => 10_000_000,
         }
     }
     fn nontrivial_rule(&self) -> &'static str {
